@@ -26,7 +26,7 @@ use std::sync::{Arc, Mutex};
 use vcore::seqx::{self, Caps, Step, Sut};
 use vcore::{Ctx, Outcome, Violation};
 use vds::cells::Cell;
-use vds::{default_rows, snap, snap_diff, VersionSnap};
+use vds::{default_rows, snap, VersionSnap};
 
 #[derive(Clone, Debug, Serialize, Deserialize)]
 pub enum Op {
